@@ -1703,6 +1703,17 @@ def dropImpliedOnCurvePoints(*interpolatable_glyphs: Glyph) -> Set[int]:
                     continue
 
                 may_drop.add(i)
+            # A cubic contour left without on-curve points is read as pairs of
+            # off-curve points starting at its first point: if the contour starts
+            # with the second handle of a curve, keep its first on-curve point.
+            onCurves = [i for i in range(start, last + 1) if flags[i] & flagOnCurve]
+            if (
+                onCurves
+                and (onCurves[0] - start) % 2 == 1
+                and flags[start] & flagCubic
+                and all(i in may_drop for i in onCurves)
+            ):
+                may_drop.discard(onCurves[0])
             start = last + 1
         # we only want to drop if ALL interpolatable glyphs have the same implied oncurves
         if drop is None:
